@@ -1,6 +1,7 @@
 use crate::engine::{Failure, PropRun, RunCfg};
 use serde_json::Value;
 
+pub mod c01;
 pub mod c04;
 pub mod c05;
 pub mod c12;
@@ -16,6 +17,7 @@ pub struct PropDef {
 
 pub fn registry() -> Vec<PropDef> {
     vec![
+        PropDef { id: c01::ID, run: c01::run, replay: c01::replay },
         PropDef { id: c04::ID, run: c04::run, replay: c04::replay },
         PropDef { id: c16::ID, run: c16::run, replay: c16::replay },
         PropDef { id: c18::ID, run: c18::run, replay: c18::replay },
